@@ -1,11 +1,11 @@
 (** C15 — P2PKH construction and addresses are coherent and checksum-protected.
     Only statements, [exact], [Print Assumptions] and non-vacuity examples.
     Models: lib/Base58.v (go-bk base58), model/Address.v; specification: spec/Base58Check.v;
-    proofs: lib/Numeral.v, lib/Base58.v, proofs/AddressProofs.v. *)
+    proofs: lib/Numeral.v, lib/Base58.v, proofs/AddressProofs.v, proofs/AddressLengthProofs.v. *)
 From Coq Require Import String Ascii List NArith.
 From Coq Require Import Strings.Byte.
 From GoBT Require Import lib.Bytes lib.Hex lib.Str lib.Sha256 lib.Ripemd160 lib.Numeral lib.Base58.
-From GoBT Require Import model.Bip276 model.Address spec.Base58Check proofs.AddressProofs.
+From GoBT Require Import model.Bip276 model.Address spec.Base58Check proofs.AddressProofs proofs.AddressLengthProofs.
 From GoBT Require lib.Checked model.Push model.Classify proofs.AuditD15.
 Import ListNotations.
 
@@ -116,6 +116,33 @@ Theorem C15_from_address_script : forall addr s, p2pkh_from_address addr = Ok s 
     bytes_of_string addr = b58_encode (v :: rest) /\ s = p2pkh_script (firstn 20 rest).
 Proof. exact p2pkh_from_address_ok. Qed.
 Print Assumptions C15_from_address_script.
+
+(** NO LONG STRING IS AN ADDRESS (any length, in particular lengths and counts of leading '1's that are multiples
+    of 2^8 or 2^16, where a narrow counter in the code would wrap): Base58 of at most 25 bytes has at most 35
+    characters, so every acceptor rejects every string of more than 35 characters (BIP276 texts, which belong
+    to C17, aside) ... *)
+Theorem C15_b58_encode_length : forall b : bytes, (List.length b <= 25)%nat -> (List.length (b58_encode b) <= 35)%nat.
+Proof. exact b58_encode_length_le_35. Qed.
+Print Assumptions C15_b58_encode_length.
+Theorem C15_accepted_strings_are_short : forall s,
+  (has_prefix "bitcoin-script:" s = false -> validate_address s = true -> (String.length s <= 35)%nat) /\
+  ((exists a, new_address_from_string s = Ok a) -> (String.length s <= 35)%nat) /\
+  ((exists sc, p2pkh_from_address s = Ok sc) -> (String.length s <= 35)%nat) /\
+  ((exists sc, pay_to_address_script s = Ok sc) -> (String.length s <= 35)%nat).
+Proof. exact accepted_strings_are_short. Qed.
+Print Assumptions C15_accepted_strings_are_short.
+(** ... and n >= 36 characters '1' before ANY string never validate *)
+Theorem C15_ones_prepended_rejected : forall n s, (36 <= n)%nat ->
+  has_prefix "bitcoin-script:" (String.append (string_of_bytes (repeat x31 n)) s) = false ->
+  validate_address (String.append (string_of_bytes (repeat x31 n)) s) = false.
+Proof. exact ones_prepended_rejected. Qed.
+Print Assumptions C15_ones_prepended_rejected.
+(** non-vacuity: accepted strings exist, and the bound 35 leaves room for them (34 characters here) *)
+Example C15_accepted_strings_are_short_nonvacuous :
+  validate_address "1E7ucTTWRTahCyViPhxSMor2pj4VGQdFMr" = true /\
+  String.length "1E7ucTTWRTahCyViPhxSMor2pj4VGQdFMr" = 34%nat /\
+  validate_address (String.append (string_of_bytes (repeat x31 256)) "1E7ucTTWRTahCyViPhxSMor2pj4VGQdFMr") = false.
+Proof. vm_compute. repeat split. Qed.
 
 (** the indexing expressions of the modelled functions never go out of range.
     (Largely by construction of model/Address.v: its accesses are totalised ([nth _ _ x00], unchecked
